@@ -144,4 +144,17 @@ PROPS = {
                 "Non-trivial: the fault lands after the first data byte of the output or index was written and before Put returned (or a source fault is active). Runs are distinct by construction.",
         "assumptions": ["single-process crash model at file-operation granularity", "GODEBUG cleared"],
     },
+    "C11": {
+        "pkg": "c11_cacheconc",
+        "level": "exploration",
+        "engine": "sched+fos+rapid",
+        "instr": ["cache:cachex", "lockedfile:lockedfilex", "lockedfile/internal/filelock:lockedfilex/internal/filelock"],
+        "technique": "property-based testing over file-operation interleavings: cache.go re-compiled against the os shim, whose every file operation is a scheduling point of the cooperative scheduler; rapid-drawn and PCT schedules of 2-4 actors on a hot ID, bounded exhaustive enumeration for 2 actors x 2 operations, plus real multi-process hammering; oracle = self-describing payloads + never-miss for stable IDs + readability at quiescence",
+        "level_text": "2-4 actors (each with its own Open of one directory; Cache has no mutable fields, so an actor is equivalent to a process at file-operation granularity) run Put/GetBytes/GetFile programs over 2 stable IDs (one content, re-stored) and 2 volatile IDs (3 contents, two of equal size) under controlled interleavings of their individual file operations. Every successful lookup must return a payload stored for that very ID with matching hash and size; a lookup of a stable ID that starts after a Put of it returned must not miss; at quiescence every stored ID is readable. The same oracle runs against 2-3 real processes x 2-4 goroutines on a real directory.",
+        "level_note": "Trusted: the os shim and scheduler; one Go-level file call is one atomic step (a single write(2) of an index entry or <=32 KiB chunk on a local file is not split). The multi-process part relies on the OS scheduler (randomized search with an exact oracle).",
+        "shards": {"quick": 4, "thorough": 16},
+        "rule": "case = 2-4 actor programs of 1-4 operations (put/getbytes/getfile) with 75% of operations on one hot ID, or the template 'one actor re-Puts a stable ID 2-4 times while the others Put it once and look it up'; schedule = drawn choice sequence of at least the fault-free step count (75%) or PCT with 0-5 change points (25%); exhaustive: 6 programs of 2 actors, all schedules with <=2 (quick, budget 3000 per program) / <=3 (thorough, budget 40000) preemptions; processes: 2-3 processes x 2-4 goroutines for 0.3 s (quick) / 0.5-2.5 s (thorough). "
+                "Non-trivial: a lookup of an ID ran while a Put of the same ID was in progress in another actor. Distinct by case.",
+        "assumptions": ["local file system (ext4), single machine"],
+    },
 }
